@@ -18,7 +18,9 @@ Families and classes (DESIGN.md §5 C12) are implemented in simkit/c12_*.py:
             (px-clean3 / px-2of3 were avoidance classes for the defects fixed in c100387 / 382ed9c;
              folded back, names still accepted in replays)
   multi /   ml-live (fault-free, FIFO links, one starter: + liveness)
-  flex      ml-single (one starter, reordering) / ml-single-faulty (FIFO links + faults)
+  flex      ml-live-jitter (fault-free, bounded jitter = reordering, back-to-back commands; liveness only:
+            fine safety invariants are deferred there so recorded safety findings cannot mask it)
+            ml-single (one starter, reordering) / ml-single-faulty (FIFO links + faults)
             ml-multi-fifo (several starters, FIFO links, no loss) / ml-multi (several starters + faults)
   election  bully / ring / randomized
   lock      competing requesters, lease expiry, direct and event API
@@ -89,8 +91,8 @@ ASSUMPTIONS = [
     "Multi/Flexible node needs its own state machine, the network is shared in every run)",
     "leader election: membership is static (all members registered before start(), the same set at every node); "
     "(term, leader) pairs are read from current_term/current_leader after every delivery, leader None is not a report",
-    "lock: a re-entrant acquire by the current holder returns the current grant and is not a new grant; tokens are "
-    "compared per lock name (weaker than 'globally')",
+    "lock: a re-entrant acquire by the current holder returns the current grant and is not a new grant; the grant "
+    "sequence is judged manager-wide in time order (1-3 lock names on one manager) as well as per lock name",
 ]
 EXPECTED_PROBES = [
     "probe.px_promise_beyond_quorum", "probe.px_late_promise_carried_accepted_value", "probe.px_retry_after_nack",
@@ -98,11 +100,12 @@ EXPECTED_PROBES = [
     "probe.px_accepted_for_stale_ballot", "probe.px_future_resolved",
     "probe.ml_leader_change", "probe.ml_two_leaders_at_once", "probe.ml_accept_out_of_order", "probe.ml_truncate",
     "probe.ml_commit_via_heartbeat", "probe.ml_pending_assigned_on_takeover", "probe.ml_future_resolved",
-    "probe.ml_promise_reported_entries", "probe.ml_leader_kept_leading_after_own_tick", "probe.ml_command_after_first_tick_applied_everywhere",
+    "probe.ml_promise_reported_entries", "probe.ml_live_two_slots_in_flight", "probe.ml_live_acks_out_of_slot_order",
+    "probe.px_falsy_value_proposed", "probe.px_falsy_value_adopted_from_promise", "probe.ml_leader_kept_leading_after_own_tick", "probe.ml_command_after_first_tick_applied_everywhere",
     "probe.flex_q2_below_majority", "probe.px_decided_on_retried_ballot", "probe.px_four_proposers",
     "probe.el_election_completed", "probe.el_shared_strategy_election_completed", "probe.el_highest_started_first",
     "probe.el_several_started_at_once", "probe.el_heartbeat_adopted", "probe.el_terms_differ_for_one_leader",
-    "probe.lock_expired", "probe.lock_waiter_woken", "probe.lock_reentrant", "probe.lock_stale_release_refused",
+    "probe.lock_grants_interleaved_across_names", "probe.lock_expired", "probe.lock_waiter_woken", "probe.lock_reentrant", "probe.lock_stale_release_refused",
     "fault.partition", "fault.crash", "fault.pause", "fault.loss", "fault.restart",
     "fault.msgs_dropped_by_partition", "fault.msgs_dropped_by_loss", "fault.stragglers",
 ]
